@@ -202,7 +202,7 @@ def cmd_check(prop, tier, jobs, only=None):
     baseline = load_baseline().get(prop, {})
     units = collect_units(prop, tier)
     if only:
-        units = [u for u in units if fnmatch.fnmatchcase(u.uid, only)]
+        units = [u for u in units if any(fnmatch.fnmatchcase(u.uid, pat) for pat in only.split(','))]
     if not units:
         print('UNDECIDED property=%s no units' % prop)
         return 2
